@@ -445,9 +445,13 @@ def _exec_run(net, op, ow_op, i, ctx, ctrl_desc, tmpdir, owm):
     ow.dump_to_file = counting_dump
 
     step_start = {}
+    tap_at_start = {}
+    live_tapctrl = "trafo.tapctrl" in ctrl_desc
 
     def progress(j, time_step, time_steps, **kw):
         step_start[j] = wrapper.n          # run invocations issued before this step
+        if live_tapctrl:
+            tap_at_start[j] = net.trafo["tap_pos"].copy()
         if ow_op["write_time_min"] is not None:
             ctx.fault_configured("clock-jump")
             dt = op["dt"][j % len(op["dt"])]
@@ -487,7 +491,14 @@ def _exec_run(net, op, ow_op, i, ctx, ctrl_desc, tmpdir, owm):
         from pandapower.control.run_control import get_controller_order
         _, corder = get_controller_order(replica, replica.controller)
         order = [c for lvl in corder for c, _ in lvl]
-    for t in ts_list:
+    for pos_, t in enumerate(ts_list):
+        if has_tapctrl and pos_ > 0 and pos_ in tap_at_start and \
+                any(step_start.get(pos_ - 1, 0) < r <= step_start.get(pos_, wrapper.n) for r in wrapper.raised):
+            # an evaluation of the previous live step raised inside the control loop: the tap positions the
+            # interrupted loop left behind ARE the network this step starts from (a tap controller with a
+            # dead band is history dependent by design), so the replica adopts them
+            replica.trafo["tap_pos"] = tap_at_start[pos_].reindex(replica.trafo.index).values
+            ctx.probe("replica_adopts_live_tap_state_after_failed_step")
         for c in order:
             c.time_step(replica, t)
         if has_tapctrl:
